@@ -37,7 +37,7 @@ fn edge_class(x0: i32, y0: i32, mv: [i32; 2], w: i32, h: i32) -> &'static str {
 }
 
 pub fn run(ctx: &Ctx) -> (Report, String) {
-    let per_shard = ctx.n(500, 25000);
+    let per_shard = ctx.n(4000, 60000);
     let mut pre = Report::new();
     conformance(&mut pre);
     let reps = par_shards(SHARDS, ctx.threads, |s| {
@@ -58,7 +58,7 @@ pub fn run(ctx: &Ctx) -> (Report, String) {
     rep.merge(pre);
     if ctx.is_main() {
         let m = ctx.scale_pct;
-        rep.require("p_pictures_compared", if ctx.tier == Tier::Quick { 20000 } else { 1_000_000 } * m / 100);
+        rep.require("p_pictures_compared", if ctx.tier == Tier::Quick { 200_000 } else { 3_000_000 } * m / 100);
         for k in ["phase=00", "phase=10", "phase=01", "phase=11", "edge=inside", "edge=crossing", "edge=outside", "kind=INTER", "kind=INTER4V", "kind=INTER+Q", "kind=INTER4V+Q", "kind=not-coded", "kind=INTRA", "kind=implicit-after-end", "no_reference_rejected", "truncated_pictures"] {
             rep.require(k, 1000 * m / 100);
         }
